@@ -722,9 +722,19 @@ fn diff_against(got: &Outcome, refs: &BTreeSet<Outcome>) -> (String, String) {
         Some((l, r)) => {
             let g: BTreeSet<&String> = got.db.iter().collect();
             let rr: BTreeSet<&String> = r.db.iter().collect();
+            // signature class: durable state / broadcasts differ (never masked by a reply-level finding),
+            // or only what a reply reported
+            let state_labels: Vec<&String> = l.iter().filter(|x| x.starts_with("db.") || *x == "rpcs").collect();
+            let class = if !state_labels.is_empty() {
+                format!("state:{}", state_labels.iter().map(|x| x.as_str()).collect::<Vec<_>>().join("+"))
+            } else {
+                let threads: BTreeSet<&str> = l.iter().filter_map(|x| x.split('.').next()).collect();
+                let kind = if l.iter().any(|x| x.ends_with(".status")) { "reply-status" } else { "reply-fields" };
+                format!("{kind}:{}", threads.into_iter().collect::<Vec<_>>().join("+"))
+            };
             (
                 format!("Differs from the nearest sequential outcome in {l:?}. Observed replies {:?}, nearest sequential replies {:?}; rows only observed {:?}, rows only in the sequential outcome {:?}; broadcasts observed {:?} vs {:?}", got.replies, r.replies, g.difference(&rr).collect::<Vec<_>>(), rr.difference(&g).collect::<Vec<_>>(), got.rpcs, r.rpcs),
-                l.into_iter().collect::<Vec<_>>().join("+"),
+                class,
             )
         }
     }
